@@ -112,7 +112,20 @@ CHECKS["C08"] = {
     "technique": "Lean 4 proof (schema theorems over the rule model) + independently instantiated schema correspondence",
 }
 
-NOT_APPLICABLE = {pid: _PENDING for pid in ["C16", "C17"]}
+CHECKS["C16"] = {
+    "text": "Theorems: has_like_terms is invariant under the congruence generated by commutativity/associativity of + (any tree); terms_are_like is reflexive and symmetric; make_term round-trips through get_term_ex and has the value c*v^e; get_term_ex of the parsed text of a natural-order term returns what was written (via parser completeness); the factor table of a positive integer has exactly its divisors as keys with k*v = n. Correspondence/oracle: all permutations and random groupings of generated sums, all natural-order triples, factor(n) for n up to 3000 (20000), predicates on random expressions, has_like_terms vs the model.",
+    "design_ref": "DESIGN.md 3/C16",
+    "note": COMMON_NOTE + "get_sub_terms / is_simple_term / is_preferred_term_form are not modelled: 'never raise' is decided by the oracle only.",
+    "technique": "Lean 4 proof over term-analysis model + permutation/grouping oracle + differential correspondence",
+}
+CHECKS["C17"] = {
+    "text": "Theorems: get_rand_vars returns distinct variables of the requested number inside the alphabet and outside the exclusions and never fails on a satisfiable request; split_in_two_random sums to its input; every well-formed problem text of the generators' shapes (flat chain with optional parenthesised group, two binomial forms) is accepted by the parser; a sum with two terms of equal variable and power has like terms. Oracle on the real generators: every generator x parameter settings x both number modes x hundreds (thousands) of seeds parses, has positive complexity, has like terms where promised.",
+    "design_ref": "DESIGN.md 3/C17",
+    "note": COMMON_NOTE + "That real generator outputs are instances of the modelled shapes is checked per generated text, not proved; random-module contracts trusted.",
+    "technique": "Lean 4 proof over problem-shape model (via parser completeness) + seed-sweep oracle on the real generators",
+}
+
+NOT_APPLICABLE = {}
 
 NOTES = (
     "All checks: /venv/bin/python check.py <id> --tier quick|thorough (honours VERIF_SEED, VERIF_TIER); exit 2 = "
